@@ -16,8 +16,8 @@ def sh(cmd, **kw):
 
 
 def evaluate(prop, n, checks, tier='quick'):
-    wt = '/tmp/mut_%s' % prop
-    out = '/tmp/mut_%s_out' % prop
+    wt = os.environ.get('MUT_PREFIX', '/tmp/mut_') + prop
+    out = os.environ.get('MUT_PREFIX', '/tmp/mut_') + prop + '_out'
     patch = '%s/patch%s.diff' % (out, n)
     demo = '%s/demo%s.py' % (out, n)
     head = sh('git -C /repo rev-parse HEAD').stdout.strip()
@@ -49,12 +49,12 @@ def main(argv):
     checks = argv[2].split(',') if len(argv) > 2 else [prop]
     tier = argv[3] if len(argv) > 3 else 'quick'
     for n in ns:
-        if not os.path.exists('/tmp/mut_%s_out/patch%s.diff' % (prop, n)):
+        if not os.path.exists(os.environ.get('MUT_PREFIX', '/tmp/mut_') + '%s_out/patch%s.diff' % (prop, n)):
             continue
         r = evaluate(prop, n, checks, tier)
         print(json.dumps(r, indent=1), flush=True)
-        os.makedirs('/tmp/mutres', exist_ok=True)
-        with open('/tmp/mutres/%s_%s.json' % (prop, n), 'w') as f:
+        os.makedirs(os.environ.get('MUT_RES', '/tmp/mutres'), exist_ok=True)
+        with open(os.environ.get('MUT_RES', '/tmp/mutres') + '/%s_%s.json' % (prop, n), 'w') as f:
             json.dump(r, f, indent=1)
 
 
